@@ -631,7 +631,9 @@ func (ex *Exec) storeField(st *State, S types.Type, f *types.Var, ref string, v 
 		}
 		ex.heapSet(st, k, srt, store(ex.heapGet(st, k, srt), ref, v.L[i]))
 	}
-	ex.storedRefs = append(ex.storedRefs, storedRef{T: S, Ref: ref, PC: st.pc})
+	if n := namedName(FT); n != "sync.Mutex" && n != "sync.RWMutex" {
+		ex.storedRefs = append(ex.storedRefs, storedRef{T: S, Ref: ref, PC: st.pc})
+	}
 }
 
 // slice element access
@@ -762,8 +764,13 @@ func (ex *Exec) storeT(st *State, t *target, v Val) {
 }
 
 func globalKey(g *ssa.Global, leaf string) string {
+	if theProgram != nil && !theProgram.mutableGlobals()[g] {
+		return "GI|" + shortPkgOf(g.Pkg) + "." + g.Name() + leaf // never assigned outside package initialisation
+	}
 	return "G|" + shortPkgOf(g.Pkg) + "." + g.Name() + leaf
 }
+
+var theProgram *Program
 
 func (ex *Exec) loadGlobal(st *State, g *ssa.Global) Val {
 	T := g.Type().(*types.Pointer).Elem()
@@ -1002,8 +1009,14 @@ func (ex *Exec) instr(fr *Frame, st *State, in ssa.Instruction) {
 		ex.note("go statement ignored (goroutines not modelled)")
 	case *ssa.Send:
 		ex.note("channel send: value leaves the sender's ownership (not modelled)")
+		ex.checkCallSites(fr, st, "chan-send", []Val{ex.value(fr, st, in.Chan), ex.value(fr, st, in.X)}, in.Pos())
 	case *ssa.Select:
-		fr.vals[in] = ex.freshVal("select", in.Type())
+		sv := ex.freshVal("select", in.Type())
+		fr.vals[in] = sv
+		if in.Blocking && len(sv.L) > 0 {
+			// a blocking select returns the index of one of its cases
+			ex.assume(st.pc, and(app("bvsle", bvLit(0, 64), sv.L[0]), app("bvslt", sv.L[0], bvLit(uint64(len(in.States)), 64))))
+		}
 		ex.selectEffects(fr, st, in)
 	case *ssa.Return:
 		var rs []Val
